@@ -317,6 +317,12 @@ func purityRun(args []string) error {
 				"calls": calls, "mutated": s.check != nil && s.check(), "sharedcap": sharedcap})
 		}
 	}
+	// (D) independent objects in parallel, cold (purity2.go)
+	parallelCold(r, func(ser string, ref []byte, out []byte, g int) {
+		id++
+		emit(map[string]interface{}{"case": fmt.Sprintf("p%d", id), "kind": "hist", "ser": ser, "mode": "parallel-cold", "sched": []int{g}, "ref": ints(ref),
+			"calls": []map[string]interface{}{{"g": g, "out": ints(out)}}, "mutated": false, "sharedcap": false})
+	})
 	// (C) permutations of map insertion order: the same logical header set inserted in random orders
 	for _, ver := range version.AllVersions {
 		sp := baseSpec(r, ver)
